@@ -16,6 +16,29 @@ theorem flat_access_in_bounds (shape : List Nat) (i j : Nat) (h : flatAccess sha
     refine ⟨by injection h with h; exact h.symm, fun size => Nat.mul_le_mul_right size hlt⟩
   · cases h
 
+/-- the same for an access with ANY element type T (`tsize` bytes) on storage made for elements of `esize` bytes: an accepted
+    access touches bytes inside the allocated `nelms * esize` — also when T is wider than the stored type and the storage size is no
+    multiple of it (the division rounds DOWN; a check written as `index * sizeof(T) >= size` would let the last partial slot through) -/
+theorem typed_access_in_bounds (shape : List Nat) (esize tsize i j : Nat) (ht : 0 < tsize)
+    (h : flatAccessAs shape esize tsize i = .num j) : j = i ∧ (i + 1) * tsize ≤ nelms shape * esize := by
+  unfold flatAccessAs at h
+  split at h
+  · rename_i hlt
+    refine ⟨by injection h with h; exact h.symm, ?_⟩
+    have h1 : (i + 1) * tsize ≤ (nelms shape * esize / tsize) * tsize := Nat.mul_le_mul_right tsize hlt
+    exact Nat.le_trans h1 (Nat.div_mul_le_self _ _)
+  · cases h
+
+theorem typed_access_refused (shape : List Nat) (esize tsize i : Nat) (h : nelms shape * esize < (i + 1) * tsize) :
+    flatAccessAs shape esize tsize i = .err "OutOfBounds" := by
+  unfold flatAccessAs
+  have : ¬ i < nelms shape * esize / tsize := by
+    intro hlt
+    have h1 : (i + 1) * tsize ≤ (nelms shape * esize / tsize) * tsize := Nat.mul_le_mul_right tsize hlt
+    have := Nat.le_trans h1 (Nat.div_mul_le_self _ _)
+    omega
+  simp [this]
+
 theorem flat_access_refused (shape : List Nat) (i : Nat) (h : nelms shape ≤ i) : flatAccess shape i = .err "OutOfBounds" := by
   unfold flatAccess; simp [Nat.not_lt.mpr h]
 
